@@ -58,7 +58,7 @@ pub struct RecoveryParametersSet {
     /// to support different recovery approaches.
     #[builder(default)]
     #[serde(flatten)]
-    #[serde(skip_serializing_if = "HashMap::is_empty")]
+    #[serde(default, skip_serializing_if = "HashMap::is_empty")]
     custom_fields: HashMap<String, serde_json::Value>,
 }
 
@@ -108,7 +108,7 @@ pub struct RecoveryMetricsUpdated {
     /// number of unspecified fields to support different recovery
     /// approaches.
     #[serde(flatten)]
-    #[serde(skip_serializing_if = "HashMap::is_empty")]
+    #[serde(default, skip_serializing_if = "HashMap::is_empty")]
     custom_fields: HashMap<String, serde_json::Value>,
 }
 
